@@ -60,6 +60,12 @@ def tmpl(I, name, v=2):
         return c(b'a: 1\nlist_OK\nb: 2\nlist_OK\nlist_OK\na: ') + hole(I, 'v', 1) + c(b'\nlist_OK\nOK\n')
     if name == 'bin0':          # an empty binary chunk as the first component of a response
         return c(b'binary: 0\n\nsize: ') + hole(I, 'v', 1, 48, 57) + c(b'\nOK\n')
+    if name == 'bin2':          # two binary fields in one frame (the second replaces the first) - unusual but well-formed by the grammar
+        return c(b'binary: 1\n') + hole(I, 'p', 1) + c(b'\nbinary: 2\n') + hole(I, 'q', 2) + c(b'\nOK\n')
+    if name == 'ackbrace':      # ACK line whose closing brace / following blank are free bytes, followed by more data
+        return c(b'ACK [5@0] {play') + hole(I, 'b', 2) + c(b'No such song\nfoo: } bar\nOK\n')
+    if name == 'ackthen':       # an error response followed by the next (pipelined) reply
+        return c(b'ACK [5@0] {x} ') + hole(I, 'm', 1) + c(b'\nvolume: ') + hole(I, 'v', 1) + c(b'\nstate: stop\nOK\n')
     if name == 'listerr':
         return c(b'a: b\nlist_OK\nc: ') + hole(I, 'v', 1) + c(b'\nACK [5@1] {x} ') + hole(I, 'm', 1) + c(b'\n')
     if name == 'two':
@@ -74,7 +80,7 @@ def tmpl(I, name, v=2):
         return c(b'binary: 20\n') + hole(I, 'p', 2) + c(b'ABCDEFGHIJKLMNOPQR\nOK\nk: v\nOK\n')
     raise KeyError(name)
 
-TEMPLATES_WF = ['field', 'keys', 'field2', 'ack', 'binary', 'list', 'list4', 'bin0', 'listerr', 'two', 'okok', 'long', 'longbin']
+TEMPLATES_WF = ['field', 'keys', 'field2', 'ack', 'ackthen', 'binary', 'bin2', 'list', 'list4', 'bin0', 'listerr', 'two', 'okok', 'long', 'longbin']
 
 # ---------------------------------------------------------------------------- sessions
 def run_session(I, flavour, body, cuts, cap, max_receives=4, greeting=GREETING, pending=False):
@@ -137,7 +143,7 @@ def instances_for(prop, tier, seed):
     elif prop == 'C02':
         for tname in TEMPLATES_WF + (['free4'] if q else ['free4', 'free5', 'free6']):
             # the long templates have many split points: their segmentation plans are distributed over several instances (workers)
-            parts = 4 if tname in ('long', 'longbin') else (2 if tname in ('list4', 'two', 'listerr', 'field2', 'bin0') else 1)
+            parts = 4 if tname in ('long', 'longbin') else (2 if tname in ('list4', 'two', 'listerr', 'field2', 'bin0', 'ackthen', 'bin2') else 1)
             for part in range(parts):
                 out.append({'t': tname, 'mode': 'splits', 'cap': 8, 'v': 1 if q else 2, 'astep': 3 if q else 1, 'part': part, 'parts': parts})
             if not q:
@@ -149,7 +155,7 @@ def instances_for(prop, tier, seed):
         for n in ((1, 2, 3, 4) if q else (1, 2, 3, 4, 5, 6)):
             out.append({'t': 'free%d' % n, 'flav': 'sync', 'cap': 8})
             out.append({'t': 'free%d' % n, 'flav': 'async', 'cap': 8})
-        for tname in ('ackbig', 'binhdr', 'ack', 'binary', 'field'):
+        for tname in ('ackbig', 'binhdr', 'ack', 'ackbrace', 'bin2', 'binary', 'field'):
             out.append({'t': tname, 'flav': 'sync', 'cap': 8})
             out.append({'t': tname, 'flav': 'async', 'cap': 4096})
         for tname in ('long', 'longbin', 'two', 'list4'):           # pipelined / long well-formed data (buffer growth and reuse must not panic either)
